@@ -367,6 +367,20 @@ pub fn build(st: &MState) -> Emu {
     e
 }
 
+/// "Whatever the machine was doing before": some receivers are not at a frame start but somewhere inside the
+/// frame, having written their (unchanged) border colour to port 0xFE earlier in that frame. Chosen from the
+/// state itself (no extra random draw), never for machines whose sound chip is mixed in (its run time is part of the state).
+pub fn dirty_midframe(e: &mut Emu, st: &MState) -> bool {
+    if st.ay.as_ref().map_or(false, |a| a.enabled) || st.r & 3 != 1 {
+        return false;
+    }
+    e.verif_wait(9000 + (st.w[1] as usize % 50000));
+    e.verif_write_io(0x00FE, st.border & 7);
+    e.verif_wait(1 + (st.w[2] as usize % 700));
+    while e.next_audio_sample().is_some() {}
+    true
+}
+
 /// Lets `frames` frames of emulated time pass without CPU activity (the sound chip keeps running; the
 /// sample queue is drained so that it never stalls), then on to the next frame start.
 pub fn let_frames_pass(e: &mut Emu, m128: bool, frames: usize) {
